@@ -80,6 +80,8 @@ let handle (toks : string list) : string =
            if cls <> [] then "chk " ^ String.concat "," cls ^ (if model <> impl then " (and model differs)" else "")
            else if model <> impl then "diff session_trace model=" ^ model else "ok nt"
        | _ -> "bad line")
+  | "L" :: _win :: "ok" :: _ -> "ok nt"
+  | "L" :: win :: "viol" :: rest -> "chk sql_late_update " ^ win ^ " " ^ String.concat " " rest
   | "I" :: size :: ooo :: idle :: nrows :: rest ->
       (match split_hash rest with
        | [ []; emits; dels ] | [ emits; dels ] ->
